@@ -202,6 +202,21 @@ def gen_universe(rnd, uid):
             files[name]['text'] = insert_rule(files[name]['text'], var, f'[{name}p {k.title()}]\nmatch: {rule}\n'
                                               f'category: Partial-{name}\n' + rnd.choice(['', 'tags: partial\n']))
             partial.append(name)
+    # a rule whose dynamic tag takes different values on different transactions of the same load
+    files['A']['text'] = insert_rule(files['A']['text'], '', f'[Adyn {k.title()}]\nmatch: contains("{k}")\ntags: dyn, {{field.kind}}\n')
+    txns.append({'description': f'APLPAY {k} WIRE MKTP', 'amount': 15.0, 'date': '2025-01-15', 'field': {'kind': 'wire'},
+                 'source': 'Chase', 'location': None})
+    # the SAME path rewritten with another rule set: A2 = A with different transforms and one more tag-only rule;
+    # Am = A's text loaded in most_specific mode; M = the file deleted
+    t1 = 'field.description = regex_replace(field.description, "^APLPAY\\s+", "")'
+    t2 = 'field.description = regex_replace(field.description, "MKTP", "MARKET")'
+    base = '\n'.join(l for l in files['A']['text'].split('\n') if not l.startswith('field.description ='))
+    files['A']['text'] = t1 + '\n' + base
+    files['A2'] = {'suffix': '.rules', 'text': insert_rule(t2 + '\n' + base, '', f'[A2t {k.title()}]\nmatch: contains("MARKET")\ntags: rewritten\n')}
+    if uid % 2 == 0:
+        files['Am'] = {'suffix': '.rules', 'text': files['A']['text'], 'mode': 'most_specific'}
+    if uid % 3 == 0:
+        files['M'] = {'suffix': '.rules', 'text': None}
     pool = [e for tpl in match_templates(k, rnd.choice(TOKENS)) for e in tpl if e]
     exprs = rnd.sample(pool, 4) + rnd.sample(
         ['amount > 100', ' amount > 100 ', 'Amount > 100', 'amount >', '__import__("os")', 'description.lower()',
@@ -218,7 +233,10 @@ def gen_op(rnd, uni, weights=(30, 35, 12, 8, 12, 3)):
     names = sorted(uni['files'])
     k = rnd.choices(['load', 'classify', 'eval', 'engparse', 'engmatch', 'evalf'], weights)[0]
     if k == 'load':
-        return {'op': 'load', 'file': rnd.choice(names + [None])}
+        o = {'op': 'load', 'file': rnd.choice(names + [None])}
+        if o['file'] is not None and rnd.random() < 0.5:
+            o['order'] = 'cli'
+        return o
     if k == 'classify':
         return {'op': 'classify', 'txn': rnd.randrange(len(uni['txns']))}
     if k == 'eval':
@@ -226,7 +244,7 @@ def gen_op(rnd, uni, weights=(30, 35, 12, 8, 12, 3)):
     if k == 'evalf':
         return {'op': 'eval', 'src': rnd.choice(uni['filter_exprs'] + uni['exprs'][:2]), 'txn': 'filter'}
     if k == 'engparse':
-        return {'op': 'engparse', 'file': rnd.choice(names)}
+        return {'op': 'engparse', 'file': rnd.choice([n for n in names if uni['files'][n]['text'] is not None])}
     return {'op': 'engmatch', 'txn': rnd.randrange(len(uni['txns']))}
 
 
@@ -250,7 +268,7 @@ def twin_histories(rnd, uni, n):
         a, b = rnd.choice(uni['twins'])
         if rnd.random() < 0.5:
             a, b = b, a
-        t = rnd.choice([nt - 2, nt - 3])
+        t = rnd.choice([nt - 3, nt - 4])
         h = [{'op': 'eval', 'src': a, 'txn': t}, {'op': 'eval', 'src': rnd.choice([b, b, ' ' + b, b + ' ']), 'txn': t}]
         if rnd.random() < 0.3:
             h.insert(0, {'op': 'load', 'file': rnd.choice(sorted(uni['files']))})
@@ -263,13 +281,13 @@ def reparse_histories(rnd, uni, n):
     """one engine object parsed twice, then matched: engine.parse must forget everything of the first file"""
     out = []
     nt = len(uni['txns'])
-    rules = sorted(n_ for n_, f in uni['files'].items() if f['suffix'] == '.rules')
+    rules = sorted(n_ for n_, f in uni['files'].items() if f['suffix'] == '.rules' and f['text'] is not None)
     for j in range(n):
         a, b = rnd.choice(rules), rnd.choice(rules)
         if j == 0 and uni.get('leak'):
             a, b = 'A', uni['leak']
         out.append([{'op': 'engparse', 'file': a}, {'op': 'engparse', 'file': b},
-                    {'op': 'engmatch', 'txn': rnd.choice([nt - 2, nt - 3])}, {'op': 'engmatch', 'txn': rnd.randrange(nt)}])
+                    {'op': 'engmatch', 'txn': rnd.choice([nt - 3, nt - 4])}, {'op': 'engmatch', 'txn': rnd.randrange(nt)}])
     return out
 
 
@@ -278,7 +296,7 @@ def partial_variable_histories(rnd, uni, n):
     rule — through get_all_rules + normalize_merchant and through one long-lived MerchantEngine.match"""
     out = []
     nt = len(uni['txns'])
-    bad, good = nt - 1, [nt - 3, nt - 2]          # NOFIELD; the two twin transactions (field + amount present)
+    bad, good = nt - 2, [nt - 4, nt - 3]          # NOFIELD; the two twin transactions (field + amount present)
     for j in range(n):
         if not uni.get('partial'):
             break
@@ -292,13 +310,34 @@ def partial_variable_histories(rnd, uni, n):
     return out
 
 
+def rewrite_histories(uni):
+    """ALWAYS run: the same path is rewritten with another rule set (other transforms, other tag-only rules, other
+    match mode, or deleted) and reloaded in the CLI's order get_transforms -> get_tag_only_rules -> get_all_rules,
+    then classified; and a rule with a dynamic tag classified on transactions giving different tag values"""
+    nt = len(uni['txns'])
+    wire, nofield, tw1, tw2 = nt - 1, nt - 2, nt - 4, nt - 3
+    cls = [{'op': 'classify', 'txn': t} for t in (wire, tw1)]
+    out = []
+    pairs = [('A', 'A2'), ('A2', 'A')] + ([('A', 'Am'), ('Am', 'A')] if 'Am' in uni['files'] else []) + \
+            ([('A', 'M'), ('M', 'A2')] if 'M' in uni['files'] else [])
+    for a, b in pairs:
+        out.append([{'op': 'load', 'file': a, 'order': 'cli'}] + cls[:1] + [{'op': 'load', 'file': b, 'order': 'cli'}] + cls)
+    out.append([{'op': 'load', 'file': 'A'}, {'op': 'load', 'file': 'A2', 'order': 'cli'}] + cls)
+    out.append([{'op': 'load', 'file': 'A', 'order': 'cli'}, {'op': 'load', 'file': 'C'}, {'op': 'load', 'file': 'A2', 'order': 'cli'}] + cls)
+    # dynamic tag: ach, then wire, then a transaction without the field, then ach again
+    seq = [tw1, wire, nofield, tw2, wire]
+    out.append([{'op': 'load', 'file': 'A', 'order': 'cli'}] + [{'op': 'classify', 'txn': t} for t in seq])
+    out.append([{'op': 'engparse', 'file': 'A'}] + [{'op': 'engmatch', 'txn': t} for t in seq])
+    return out
+
+
 def systematic_histories(uni):
     """every ordered pair of loads (incl. no path), followed by two classifications"""
     names = sorted(uni['files']) + [None]
     out = []
     for a in names:
         for b in names:
-            out.append([{'op': 'load', 'file': a}, {'op': 'load', 'file': b}, {'op': 'classify', 'txn': 0},
+            out.append([{'op': 'load', 'file': a, 'order': 'cli'}, {'op': 'load', 'file': b, 'order': 'cli'}, {'op': 'classify', 'txn': 0},
                         {'op': 'classify', 'txn': len(uni['txns']) - 1}])
     return out
 
@@ -588,12 +627,15 @@ def model_tables(uni, hists, results, fresh, fx, pool):
     for h in hists:
         for st, o in zip(mirror_states(h, fresh, fx), h):
             reqs.append((minimal_history(st, o), o))
-    for n in names:
+    pnames = [n for n in names if uni['files'][n]['text'] is not None]
+    for n in pnames:
         reqs.append(([], {'op': 'engparse', 'file': n}))
+    for h in hists:
+        reqs += [([], o) for o in h if o['op'] == 'load']
     fresh.need(reqs, pool)
     t_load = [f'({fid[n]}, ({cbool(builds_engine(fresh, n))}, {ckeys(fresh.get([], {"op": "load", "file": n}))}))' for n in names]
     t_parse = []
-    for n in names:
+    for n in pnames:
         r = fresh.get([], {'op': 'engparse', 'file': n})
         t_parse.append(f'({fid[n]}, ({cbool(r["out"].get("raised") is not None)}, {ckeys(r)}))')
     t_cw, t_cl, t_em, t_ev, bad = {}, {}, {}, {}, set()
@@ -743,7 +785,7 @@ def main(tier):
     all_hists = []
     for i, u in enumerate(unis):
         hs = [gen_history(rnd, u) for _ in range(n_hist)] + twin_histories(rnd, u, n_twin) + reparse_histories(rnd, u, 2) + \
-            partial_variable_histories(rnd, u, 2)
+            partial_variable_histories(rnd, u, 2) + rewrite_histories(u)
         if i < n_sys:
             hs += systematic_histories(u)
         all_hists.append(hs)
@@ -797,7 +839,7 @@ def main(tier):
     # cache keys are exact substrings of what was handed in (a normalised key would not be)
     key_bad = []
     for ui, (u, hs) in enumerate(zip(unis, all_hists)):
-        texts = [f['text'] for f in u['files'].values()] + u['exprs'] + u['filter_exprs'] + [o['src'] for h in hs for o in h if o['op'] == 'eval']
+        texts = [f['text'] for f in u['files'].values() if f['text'] is not None] + u['exprs'] + u['filter_exprs'] + [o['src'] for h in hs for o in h if o['op'] == 'eval']
         texts += [t.replace('""', '"') for t in texts]      # CSV quoting of a pattern cell
         for h, r in zip(hs, all_results[ui]):
             for x in r:
